@@ -261,6 +261,10 @@ class {P}Symbol:
 
 {P}SYMBOLS = [{P}Symbol(f"s{i}") for i in range(4)]
 
+from pyoak.origin import GeneratedCodeOrigin as _GCO, MemoryTextSource as _MTS
+# the origin that nodes of "built-in" classes get when none is given
+{P}PRELUDE_ORIGIN = _GCO(_MTS("def builtins(): ...", source_uri="mem://verif/prelude"))
+
 
 class _{P}Tag:
     # a plain marker mixin (no data, not a node)
@@ -362,6 +366,9 @@ def core_specs(P: str = "U", variant: int = 0) -> list[CS]:
             F(FS("v", "prop", "int", "int", default="0"), FS("child", "child", f"{E} | None", "opt", (E,), default="None")),
             slots=True,
         ),
+        # fully slotted instances (every class up to ASTNode is slotted: no instance __dict__), and a slotted subclass of one
+        CS(f"{P}Slotted", ("ASTNode",), F(FS("v", "prop", "int", "int", default="0"), FS("kid", "child", f"{E} | None", "opt", (E,), default="None"), FS("rest", "child", f"tuple[{E}, ...]", "tuple", (E,), default="()")), slots=True),
+        CS(f"{P}Slotted2", (f"{P}Slotted",), F(FS("w", "prop", "str", "str", default='""'), FS("more", "child", f"{P}Slotted | None", "opt", (f"{P}Slotted",), default="None")), slots=True),
         CS(
             f"{P}Init",
             (E,),
@@ -422,6 +429,14 @@ def core_specs(P: str = "U", variant: int = 0) -> list[CS]:
         # an abstract base node class (abc.ABC: another metaclass) and a concrete subclass
         CS(f"{P}Abstract", (E, "ABC"), F(FS("label", "prop", "str", "str", default='""')), abstract=True),
         CS(f"{P}Concrete", (f"{P}Abstract",), F(FS("kid", "child", f"{P}Abstract | {E} | None", "opt", (E,), default="None"))),
+        # a collection-like node class below the abstract base (its metaclass is ABCMeta, not type), held as a single child
+        CS(
+            f"{P}AbcColl",
+            (f"{P}Abstract",),
+            F(FS("elems", "child", f"tuple[{E}, ...]", "tuple", (E,), default="()")),
+            body="    def __len__(self):\n        return len(self.elems)\n\n    def __iter__(self):\n        return iter(self.elems)\n\n    def __contains__(self, x):\n        return any(x is e for e in self.elems)\n",
+        ),
+        CS(f"{P}AbcHold", (E,), F(FS("blk", "child", f"{P}AbcColl", "one", (f"{P}AbcColl",)), FS("v", "prop", "int", "int", default="0"))),
         # typing.Annotated around child and property annotations (also around a quoted reference)
         CS(
             f"{P}Annot",
@@ -457,6 +472,9 @@ def core_specs(P: str = "U", variant: int = 0) -> list[CS]:
         CS(f"{P}Defaults", (E,), F(FS("big", "prop", "int", "int", default="4096"), FS("name", "prop", "str", "str", default='"function-local"'), FS("dims", "prop", "tuple[int, ...]", "tint", default="(4, 4)"), FS("where", "prop", "Path", "path", default='Path("a/b")'))),
         # a class that re-declares the built-in origin field with another annotation
         CS(f"{P}Narrow", (E,), F(FS("origin", "prop", "Union[CodeOrigin, Origin]", "origin", kw_only=True, default="NO_ORIGIN"), FS("v", "prop", "int", "int", default="0"), FS("kid", "child", f"{E} | None", "opt", (E,), default="None"))),
+        # a class that overrides the default of the built-in origin field (nodes of "built-in" things): an explicit
+        # NO_ORIGIN on such a node is a value like any other
+        CS(f"{P}Builtin", (E,), F(FS("origin", "prop", "Origin", "origin", kw_only=True, default=f"{P}PRELUDE_ORIGIN"), FS("v", "prop", "int", "int", default="0"), FS("kid", "child", f"{E} | None", "opt", (E,), default="None"))),
         # two classes whose (long) names share their first 16 characters and whose layout is the same
         CS(f"{P}VeryLongClassNameAlpha", (E,), F(FS("v", "prop", "int", "int", default="0"), FS("kid", "child", f"{E} | None", "opt", (E,), default="None"))),
         CS(f"{P}VeryLongClassNameBeta", (E,), F(FS("v", "prop", "int", "int", default="0"), FS("kid", "child", f"{E} | None", "opt", (E,), default="None"))),
